@@ -30,7 +30,9 @@ var upstreamClient = &http.Client{
 // the origin sent, next to the validators of the compressed representation. Encodings are the
 // client's and the origin's business; the proxy passes them through.
 func disableTransparentCompression() {
-	if t, ok := http.DefaultTransport.(*http.Transport); ok {
+	// (Written once per transport: a second proxy set up in the same process finds it done and only
+	// reads, like the fetches of the first one that are under way.)
+	if t, ok := http.DefaultTransport.(*http.Transport); ok && !t.DisableCompression {
 		t.DisableCompression = true
 	}
 }
